@@ -687,6 +687,15 @@ def execute(desc, ctx=None, mutate=False, seed=0, scramble=False):
                 own_structs = sf.read_struct_file(f_.read())
             own_structs.pop(b"vcpu", None)
             own_structs[b"sv"].base += 0x100
+            def deep_(d_):
+                # everything the caller's definitions say: per struct its
+                # base, size and every field's layout and default value
+                return sorted(
+                    (k_, st_.base, st_.size,
+                     sorted((fk_, tuple(fv_)) for fk_, fv_ in
+                            st_.fields.items()))
+                    for k_, st_ in d_.items())
+            own_deep = deep_(own_structs)
             own_before = (sorted(own_structs), own_structs[b"sv"].base,
                           id(own_structs[b"sv"]))
             bmc = mcm.MachineController(host, structs=own_structs)
@@ -717,6 +726,15 @@ def execute(desc, ctx=None, mutate=False, seed=0, scramble=False):
                   "made with: keys %r -> %r, sv base %#x -> %#x" %
                   (own_before[0][:4], sorted(own_structs)[:4], own_before[1],
                    own_structs[b"sv"].base), call="boot")
+            now_ = deep_(own_structs)
+            if now_ != own_deep:
+                diff_ = [(a_[0], [x_ for x_, y_ in zip(a_[3], b_[3])
+                                  if x_ != y_][:3])
+                         for a_, b_ in zip(own_deep, now_) if a_ != b_]
+                check(False, "argument-modified",
+                      "boot() edited the struct definitions the controller "
+                      "was made with (they were, struct / fields): %r" %
+                      (diff_[:2],), call="boot")
         area = bytearray(b"".join(c20.decode(d)[3] for d in sent[1:-1])
                          [384:512])
         for fld in ("unix_time", "boot_sig"):       # clock-dependent
